@@ -426,6 +426,8 @@ func TestVerif(t *testing.T) {
 	switch e.Prop {
 	case "C12":
 		h = admHarness{}
+	case "C08":
+		h = authHarness{}
 	default:
 		t.Fatalf("unknown property %s for package app", e.Prop)
 	}
